@@ -13,7 +13,7 @@
 (*    fits 64 bits, and then returns the product.                          *)
 (*  - separators never change the value of a text.                         *)
 (***************************************************************************)
-EXTENDS SizeRef, SequencesExt
+EXTENDS Size, SequencesExt
 
 Odds == {<<1>>, <<3>>, <<1, 0, 2, 3>>, <<9, 9, 9>>, <<1, 0, 0, 1>>, <<4, 2, 9, 4, 9, 6, 7, 2, 9, 5>>}
 RECURSIVE Shl(_, _)
@@ -24,10 +24,10 @@ Near == {BPow(1000, e) : e \in 0..6} \cup {BPow(1024, e) : e \in 0..6}
         \cup {U64Max, BZero, <<1, 8, 4, 4, 6, 7, 4, 4, 0, 7, 3, 7, 0, 9, 5, 5, 1, 6, 1, 4>>, BPow(2, 63)}
 
 VARIABLES odd, k
-vars == <<odd, k>>
+vars == <<odd, k, zvars>>
 \* k = -1 enumerates Near through odd (a member of Near)
-Init == (odd \in Odds /\ k = 0) \/ (odd \in Near /\ k = -1)
-Next == k >= 0 /\ k < 63 /\ k' = k + 1 /\ odd' = odd
+Init == ((odd \in Odds /\ k = 0) \/ (odd \in Near /\ k = -1)) /\ SizeInit
+Next == k >= 0 /\ k < 63 /\ k' = k + 1 /\ odd' = odd /\ UNCHANGED zvars
 Spec == Init /\ [][Next]_vars
 
 V == IF k = -1 THEN odd ELSE Shl(odd, k)
@@ -68,6 +68,17 @@ UnitLaws ==
       /\ (~BIsZero(V) /\ ~zeroOnly) => (IsOk(r) <=> FitsU64(MulUnit(V, u)))
       /\ IsOk(r) => r.v = MulUnit(V, u)
       /\ IsFail(NewSizeRef("neg", V, u)) /\ IsFail(NewSizeRef("frac", V, u)) /\ IsFail(NewSizeRef("nan", V, u))
+
+\* C04 on the specification: under every combination of the three marshalling switches the
+\* specified marshal forms mean the size again under the specified parser (text, and the three
+\* JSON forms: object, quoted text, number)
+Switches == [dmtu : BOOLEAN, dmjs : BOOLEAN, dmjo : BOOLEAN]
+MarshalRoundTrip ==
+  InRange =>
+    \A sw \in Switches :
+      /\ ParseSizeTextRef(StrToSeq(MarshalTextRef(V, sw)), 0) = Ok(BNorm(V))
+      /\ MjMeaning(StrToSeq(MarshalJSONRef(V, sw))) = Ok(BNorm(V))
+      /\ (sw.dmjo /\ sw.dmjs) => AllDigits(StrToSeq(MarshalJSONRef(V, sw)))
 
 SeparatorLaws ==
   (InRange /\ Len(V) >= 2) =>
